@@ -88,7 +88,7 @@ def _decode_one(item):
     paths, seed = item
     nc = _CFG["C"]
     chars = TABLE[:nc - 1] + [ENGINE_BLANK]
-    rec = {"paths": [list(p) for p in paths], "outcome": "ok", "eng": [], "alone": [], "ocr": []}
+    rec = {"paths": [list(p) for p in paths], "outcome": "ok", "eng": [], "alone": [], "ocr": [], "logits_same": True}
     try:
         sc = render(paths, nc, seed)
         assert (sc.argmax(axis=1) == np.array(paths)).all()
@@ -112,8 +112,8 @@ def _decode_one(item):
         e.model = lambda batch: stub_out.clone()
         dec, logits = e.run_ocr(np.zeros((len(paths), 8, 4 * len(paths[0]), 3), dtype=np.uint8))
         rec["ocr"] = [_inverse(x, chars) for x in dec]
-        if logits.shape != (len(paths), len(paths[0]), nc) or not np.array_equal(logits, np.transpose(sc, (0, 2, 1))):
-            rec["outcome"] = "run_ocr-logits-changed"
+        # not part of the statement (drift only): run_ocr hands the network output on as N x T x C
+        rec["logits_same"] = bool(logits.shape == (len(paths), len(paths[0]), nc) and np.array_equal(logits, np.transpose(sc, (0, 2, 1))))
     except Exception as ex:      # part of the observation
         rec["outcome"] = "exception:" + type(ex).__name__
     return rec
@@ -139,6 +139,9 @@ def judge(ctx, c, traces):
                  any(p[i] == p[i + 2] != blank and p[i + 1] == blank for i in range(len(p) - 2)) for p in tr["paths"])
         ctx.count(1, (_lab(c), tuple(map(tuple, tr["paths"]))) if nt else None)
     ctx.sample({"config": _lab(c), "trace": traces[(2 * len(traces)) // 3]}, limit=5)
+    changed = [tr for tr in traces if not tr.get("logits_same", True)]
+    if changed:
+        ctx.model_drift("run_ocr returns logits that are not the permuted network output", len(changed), {"paths": changed[0]["paths"]})
     for idx, clause in rej:
         tr = traces[idx]
         ctx.violation({"cfg": c, "trace": tr, "seed": tr.get("seed", 0), "clause": clause}, SIGS.get(clause, "clause%d" % clause),
